@@ -205,6 +205,30 @@ FIXED = [
  ('C10', 'cache-keyed-by-code-equality', '9c09b88',
   "cache keyed by code-object equality: entry of a live function filed under an equal code object of an unloaded module disappeared with it; source transformation ran twice for one (code object, options) pair",
   None),
+ ('C05', 'jump-in-except-clause-skips-finally', '3ec3229',
+  "return/break/continue inside an except clause was not routed through the try's finally block (executed path return -> finally body had no CFG edge)",
+  {'src': PREAMBLE + '''def f(a, b, c, xs, o, d):
+    v0 = a
+    for i1 in range(2):
+        try:
+            if a > 0:
+                raise E1('x')
+            v0 = v0 + 1
+        except E1:
+            if i1 > 0:
+                break
+            v0 = v0 + 2
+            continue
+        finally:
+            v0 = v0 + 10
+    try:
+        raise E3('sub')
+    except E1:
+        return (v0, 1)
+    finally:
+        T('fin', v0)
+    return (v0,)
+''', 'inputs': [A, B], 'fnames': ['f']}),
  ('C04', 'nested-conditional-expression-native', '97e2f5a',
   "a conditional expression nested in the test or a branch of another one stayed native (visit_IfExp did not visit children)",
   'C04MATRIX'),
